@@ -358,6 +358,12 @@ impl Machine {
                 self.out.push(format!("x{}", hex(&buf)));
                 self.readers.push(rd);
             }
+            // trd:j:n  XofReader::read on an EXISTING reader j (the model: inherent fill)
+            "trd" => {
+                let mut buf = vec![0u8; idx(f[2])];
+                blake3::traits::digest::XofReader::read(&mut self.readers[idx(f[1])], &mut buf);
+                self.out.push(format!("x{}", hex(&buf)));
+            }
             "tk" => {
                 // KeyInit::new with the mode's key (keyed mode only) -> new instance
                 if let ModeSpec::Keyed(k) = &self.mode {
